@@ -60,6 +60,8 @@ struct Tls {
     /// trusts the test CA, checks the chain but not the name (decision rows with an IPv6 literal: ldap3 hands the
     /// bracketed form "[::1]" to the TLS library as the name to verify, which no certificate can match)
     custom_anyname: native_tls::TlsConnector,
+    /// blocking acceptor with the CA-signed localhost leaf (for peers that run on plain threads)
+    acceptors_std: native_tls::TlsAcceptor,
 }
 
 fn sh(dir: &Path, args: &[&str]) {
@@ -103,10 +105,14 @@ fn make_tls(dir: &Path) -> Tls {
     sh(&d, &["pkcs8", "-topk8", "-nocrypt", "-in", "self.key", "-out", "self.p8"]);
     let rd = |n: &str| std::fs::read(d.join(n)).unwrap_or_else(|e| infra(&format!("read {}: {}", n, e)));
     let mut acceptors = std::collections::HashMap::new();
+    let mut acceptors_std = None;
     for (kind, name) in [("trusted", "good"), ("wrongName", "wrong"), ("untrusted", "self")] {
         let id = native_tls::Identity::from_pkcs8(&rd(&format!("{name}.pem")), &rd(&format!("{name}.p8")))
             .unwrap_or_else(|e| infra(&format!("identity {}: {}", name, e)));
         let acc = native_tls::TlsAcceptor::new(id).unwrap_or_else(|e| infra(&format!("acceptor {}: {}", name, e)));
+        if kind == "trusted" {
+            acceptors_std = Some(acc.clone());
+        }
         acceptors.insert(kind.to_string(), tokio_native_tls::TlsAcceptor::from(acc));
     }
     let ca = native_tls::Certificate::from_pem(&rd("ca.pem")).unwrap_or_else(|e| infra(&format!("ca: {}", e)));
@@ -119,7 +125,7 @@ fn make_tls(dir: &Path) -> Tls {
         .danger_accept_invalid_hostnames(true)
         .build()
         .unwrap_or_else(|e| infra(&format!("connector: {}", e)));
-    Tls { acceptors, custom, custom_anyname }
+    Tls { acceptors, custom, custom_anyname, acceptors_std: acceptors_std.unwrap() }
 }
 
 // ---------------------------------------------------------------------------------------------- scripted server
@@ -216,6 +222,7 @@ fn bind_response(id: i64, rc: i64) -> Vec<u8> {
     ber::message(id, ber::ldap_result(1, rc, b"", if rc == 0 { b"injected" } else { b"real" }, &[]), None)
 }
 fn ext_response(id: i64, rc: i64) -> Vec<u8> {
+    let rc = if rc == 1_000_000 { 1i64 << 32 } else { rc }; // the specification's stand-in for 2^32
     let extra = if rc == 0 { vec![ber::tlv(0x8a, STARTTLS_OID)] } else { vec![] };
     ber::message(id, ber::ldap_result(24, rc, b"", b"", &extra), None)
 }
@@ -1604,6 +1611,137 @@ fn trace(out: &str, count: usize, report: &str, dir: &Path) {
 
 // ---------------------------------------------------------------------------------------------- main
 
+/// C04, last sentence, on the real transports: after `unbind()` the peer - which does NOT close its own end on reading the
+/// UnbindRequest but waits - must read end-of-file, and a later operation on the handle must fail. One case per transport
+/// variant of the library (TCP dialled, TCP pre-connected, TLS over TCP, Unix socket by path, Unix socket pre-connected).
+fn unbind_closes(report: &str, dir: &Path) {
+    use std::io::{Read, Write};
+    let mut rep = Report::new("setup-unbind-closes");
+    let tls = make_tls(dir);
+    let rt = tokio::runtime::Builder::new_multi_thread().worker_threads(4).enable_all().build().unwrap();
+    // the peer: answers Binds, notes the Unbind, then waits for EOF (or anything else the client still sends)
+    fn peer<S: Read + Write>(mut s: S) -> (bool, bool, usize) {
+        let (mut buf, mut tmp) = (Vec::new(), [0u8; 4096]);
+        let (mut unbind, mut eof, mut after) = (false, false, 0usize);
+        loop {
+            while let Some((el, n)) = ber::decode(&buf) {
+                buf.drain(..n);
+                match classify(&el) {
+                    Some(Pdu::Bind(id)) => {
+                        if unbind {
+                            after += 1;
+                        }
+                        let _ = s.write_all(&bind_response(id, 0));
+                    }
+                    Some(Pdu::Unbind) => unbind = true,
+                    _ => {
+                        if unbind {
+                            after += 1;
+                        }
+                    }
+                }
+            }
+            match s.read(&mut tmp) {
+                Ok(0) => {
+                    eof = true;
+                    break;
+                }
+                Ok(n) => buf.extend_from_slice(&tmp[..n]),
+                Err(_) => break, // read timeout: the client never closed
+            }
+        }
+        (unbind, eof, after)
+    }
+    for variant in ["tcp-dial", "tcp-stream", "unix-path", "unix-stream", "tls-dial"] {
+        let sockpath = dir.join(format!("unbind-{}.sock", std::process::id()));
+        let _ = std::fs::remove_file(&sockpath);
+        let (url, settings, handle): (String, LdapConnSettings, std::thread::JoinHandle<(bool, bool, usize)>) = match variant {
+            "tcp-dial" | "tcp-stream" | "tls-dial" => {
+                let l = std::net::TcpListener::bind("127.0.0.1:0").unwrap_or_else(|e| infra(&format!("bind: {}", e)));
+                let port = l.local_addr().unwrap().port();
+                let is_tls = variant == "tls-dial";
+                let acc = tls.acceptors_std.clone();
+                let h = std::thread::spawn(move || {
+                    let (c, _) = l.accept().expect("accept");
+                    c.set_read_timeout(Some(Duration::from_secs(3))).ok();
+                    if is_tls {
+                        match acc.accept(c) {
+                            Ok(t) => peer(t),
+                            Err(_) => (false, false, 0),
+                        }
+                    } else {
+                        peer(c)
+                    }
+                });
+                let mut st = LdapConnSettings::new().set_connector(tls.custom.clone());
+                if variant == "tcp-stream" {
+                    let c = std::net::TcpStream::connect(("127.0.0.1", port)).unwrap_or_else(|e| infra(&format!("connect: {}", e)));
+                    st = st.set_std_stream(StdStream::Tcp(c));
+                }
+                (format!("{}://localhost:{}", if is_tls { "ldaps" } else { "ldap" }, port), st, h)
+            }
+            "unix-path" => {
+                let l = std::os::unix::net::UnixListener::bind(&sockpath).unwrap_or_else(|e| infra(&format!("bind unix: {}", e)));
+                let h = std::thread::spawn(move || {
+                    let (c, _) = l.accept().expect("accept");
+                    c.set_read_timeout(Some(Duration::from_secs(3))).ok();
+                    peer(c)
+                });
+                (format!("ldapi://{}", pct(&sockpath.to_string_lossy(), true)), LdapConnSettings::new(), h)
+            }
+            _ => {
+                let (a, b) = std::os::unix::net::UnixStream::pair().unwrap_or_else(|e| infra(&format!("socketpair: {}", e)));
+                b.set_read_timeout(Some(Duration::from_secs(3))).ok();
+                let h = std::thread::spawn(move || peer(b));
+                ("ldapi://ignored".to_string(), LdapConnSettings::new().set_std_stream(StdStream::Unix(a)), h)
+            }
+        };
+        let later = rt.block_on(async {
+            let r = tokio::time::timeout(Duration::from_secs(5), LdapConnAsync::with_settings(settings, &url)).await;
+            let (conn, mut ldap) = match r {
+                Ok(Ok(x)) => x,
+                other => return format!("setup-failed:{:?}", other.map(|r| r.map(|_| ()))),
+            };
+            let drv = tokio::spawn(async move { conn.drive().await });
+            let b1 = tokio::time::timeout(Duration::from_secs(5), ldap.simple_bind("cn=x", "pw")).await;
+            if !matches!(b1, Ok(Ok(_))) {
+                return "first-bind-failed".to_string();
+            }
+            let _ = tokio::time::timeout(Duration::from_secs(5), ldap.unbind()).await;
+            tokio::time::sleep(Duration::from_millis(100)).await;
+            let later = match tokio::time::timeout(Duration::from_secs(2), ldap.simple_bind("cn=x", "pw")).await {
+                Ok(Ok(_)) => "later-op-succeeded",
+                Ok(Err(_)) => "later-op-failed",
+                Err(_) => "later-op-hangs",
+            };
+            // the handle stays alive until the peer has had its three seconds
+            tokio::time::sleep(Duration::from_millis(200)).await;
+            let _keep = &ldap;
+            let _ = drv;
+            later.to_string()
+        });
+        let (unbind, eof, after) = handle.join().unwrap_or((false, false, 0));
+        rep.eval(true, hash_of(&variant));
+        rep.count(&format!("variant:{}", variant));
+        let case = json!({"transport": variant, "url": url, "peer_saw_unbind": unbind, "peer_read_eof": eof, "requests_after_unbind": after, "later_operation": later});
+        if rep.samples.len() < 5 {
+            rep.sample(case.clone());
+        }
+        if later.starts_with("setup-failed") || later == "first-bind-failed" || !unbind {
+            rep.notes.push(format!("unbind-closes {}: could not be exercised ({})", variant, later));
+            rep.count("not-exercised");
+        } else if !eof {
+            rep.mismatch(&format!("c04:unbind:{}:transport-not-closed", variant), case);
+        } else if later != "later-op-failed" {
+            rep.mismatch(&format!("c04:unbind:{}:{}", variant, later), case);
+        } else {
+            rep.count("closed-and-failing-fast");
+        }
+        let _ = std::fs::remove_file(&sockpath);
+    }
+    rep.write(report);
+}
+
 fn main() {
     let a: Vec<String> = std::env::args().collect();
     std::panic::set_hook(Box::new(|_| {})); // panics of the code under test are data
@@ -1613,6 +1751,7 @@ fn main() {
         (Some("replay"), Some("rows")) if a.len() >= 6 => replay_rows(&a[3], &a[4], &a[5], a.get(6).map(|x| x.as_str()).unwrap_or("1"), a.get(7).map(|x| x.as_str()).unwrap_or("both"), &dir),
         (Some("replay"), Some("est")) if a.len() >= 6 => replay_est(&a[3], &a[4], &a[5], &dir),
         (Some("trace"), Some(out)) if a.len() >= 5 => trace(out, a[3].parse().unwrap_or(100), &a[4], &dir),
+        (Some("unbind-closes"), Some(report)) => unbind_closes(report, &dir),
         (Some("probe"), Some(u)) => {
             let tls = make_tls(&dir);
             let starttls = a.iter().any(|x| x == "starttls");
